@@ -265,13 +265,22 @@ func TestC06Writers(t *testing.T) {
 		w := &recWriter{}
 		kind := rapid.SampledFrom([]string{"streamwriter.Writer", "frame.Writer", "frame.ReadWriter"}).Draw(t, "writer_kind")
 		useStream := kind == "streamwriter.Writer"
+		// the deprecated writers are given a key and ids but no version now and then: whatever they make of that
+		// (they pick version 2), a writer that has a key signs
+		outVer := frame.V2
+		if !useStream && rapid.IntRange(0, 3).Draw(t, "version_left_unset") == 0 {
+			outVer = 0
+		}
 		var write func(m message.Message) error
 		if kind == "frame.ReadWriter" {
 			rw := &frame.ReadWriter{ByteReadWriter: struct {
 				io.Reader
 				io.Writer
-			}{bytes.NewReader(nil), w}, DialectRW: di.rw, OutVersion: frame.V2, OutSystemID: sys, OutComponentID: comp, OutSignatureLinkID: link, OutKey: keyObj(&key)}
+			}{bytes.NewReader(nil), w}, DialectRW: di.rw, OutVersion: outVer, OutSystemID: sys, OutComponentID: comp, OutSignatureLinkID: link, OutKey: keyObj(&key)}
 			if err := rw.Initialize(); err != nil {
+				if outVer == 0 {
+					t.Skip("a keyed writer without a version is refused: nothing is written")
+				}
 				t.Fatalf("BROKEN: %v", err)
 			}
 			write = rw.WriteMessage
@@ -286,8 +295,11 @@ func TestC06Writers(t *testing.T) {
 			}
 			write = sw.Write
 		} else {
-			fw := &frame.Writer{ByteWriter: w, DialectRW: di.rw, OutVersion: frame.V2, OutSystemID: sys, OutComponentID: comp, OutSignatureLinkID: link, OutKey: keyObj(&key)}
+			fw := &frame.Writer{ByteWriter: w, DialectRW: di.rw, OutVersion: outVer, OutSystemID: sys, OutComponentID: comp, OutSignatureLinkID: link, OutKey: keyObj(&key)}
 			if err := fw.Initialize(); err != nil {
+				if outVer == 0 {
+					t.Skip("a keyed writer without a version is refused: nothing is written")
+				}
 				t.Fatalf("BROKEN: %v", err)
 			}
 			write = fw.WriteMessage
